@@ -477,8 +477,9 @@ func (p *prop) Gen(r *vh.Rng, tier string, n int) []vh.Case {
 		cases = append(cases, c)
 		lines += len(c.Lines)
 	}
-	// one sweep of each kind per small depth first, then a random mix until the budget is used
-	for d := 0; d <= maxD; d++ {
+	// sweeps of both kinds for three of the small depths first (the eight worker streams of a run
+	// cover every depth between them), then a random mix until the budget is used
+	for _, d := range r.Perm(maxD + 1)[:3] {
 		add(fragSweep(r.Fork(), d))
 		add(fieldSweep(r.Fork(), d))
 	}
